@@ -71,7 +71,7 @@ def gen(rng, tier):
     spec = rng.choice(SPECS) if fmt == "gff3" else rng.choice([None, None, {"gene": "gene_id", "transcript": "transcript_id", "exon": "exon_number"}])
     multi = rng.random() < 0.25
     if fmt == "gff3":
-        steps = [{"op": "create", "feats": batch(rng, rng.randint(1, 8), multi), "form": rng.choice(["path", "list", "gen", "string"])}]
+        steps = [{"op": "create", "feats": batch(rng, rng.randint(1, 8), multi), "form": rng.choice(["path", "list", "gen", "string", "gz"])}]
         for _ in range(rng.choice([0, 1, 1, 2, 3])):
             steps.append({"op": rng.choice(["reopen", "restart", "gc", "none"])})
             steps.append({"op": "update", "feats": batch(rng, rng.randint(1, 4), multi), "form": rng.choice(["path", "list", "gen", "iter1"])})
@@ -96,7 +96,11 @@ def gen(rng, tier):
     if memory:
         steps = [st for st in steps if st["op"] not in ("reopen", "restart", "foreign")]
     return {"fmt": fmt, "id_spec": spec, "steps": steps, "qseed": rng.getrandbits(32), "memory": memory, "pct_nonascii": rng.random() < 0.5,
-            "fault_profile": rng.random() < (0.1 if not memory else 0.5), "fault_seed": rng.getrandbits(32)}
+            "fault_profile": rng.random() < (0.1 if not memory else 0.5), "fault_seed": rng.getrandbits(32),
+            # the file is not UTF-8 (Latin-1 bytes): refusing it is fine, storing other characters than the file's is not
+            "latin1": rng.random() < 0.2,
+            # the relation keys of the GTF importer are not its id keys
+            "gtf_other_keys": fmt == "gtf" and rng.random() < 0.4}
 
 
 def run(case):
@@ -257,6 +261,26 @@ def run(case):
                     req["data"]["text"] = enc(req["data"]["text"])
                 if "lines" in req["data"]:
                     req["data"]["lines"] = [enc(x) for x in req["data"]["lines"]]
+            latin = False
+            if case.get("latin1") and k == "create" and st["form"] in ("path", "gz") and not (case.get("pct_nonascii") and fmt == "gff3"):
+                try:
+                    req["data"]["text"].encode("latin-1")
+                    latin = any(ord(ch) > 127 for ch in req["data"]["text"])
+                except UnicodeEncodeError:
+                    latin = False
+                if latin:
+                    req["data"]["encoding"] = "latin-1"
+            if case.get("gtf_other_keys"):
+                # gtf_gene_key / gtf_transcript_key say where RELATIONS come from; the default id_spec stays gene_id / transcript_id
+                kw.update({"gtf_gene_key": "gene_name", "gtf_transcript_key": "tx_name"})
+                for f in st["feats"]:
+                    have = dict((a[0], a[1]) for a in f["attrs"])
+                    if "gene_id" in have and "gene_name" not in have:
+                        f["attrs"].append(["gene_name", ["N" + have["gene_id"][0]]])
+                    if "transcript_id" in have and "tx_name" not in have:
+                        f["attrs"].append(["tx_name", ["N" + have["transcript_id"][0]]])
+                req["data"] = G.source_spec(None, st["feats"], form=st["form"], d=d_)
+                probes["gtf_relation_keys_differ_from_id_keys"] = 1
             if spec is not None:
                 req["id_spec"] = spec
             if k == "create":
@@ -280,6 +304,10 @@ def run(case):
                 break
             issued = list(model.auto_issued)
             r = call(node, req)
+            if latin and not r["ok"] and r["exc"] == "UnicodeDecodeError":
+                probes["non_utf8_file_refused"] = 1
+                multi_rejected = True
+                break
             if expect_fail:
                 if r["ok"]:
                     V.append(viol("C04.reject", "%s accepted input the statement says must be rejected (%s)" % (k, expect_fail),
